@@ -3,12 +3,13 @@ import WsVerif.Ops.Stats
 import WsVerif.Ops.Peak
 import WsVerif.Ops.Track
 import WsVerif.Ops.Select
+import WsVerif.Ops.History
 /-! Line-protocol driver: one request per line on stdin, one response per line on stdout.
     Each `WsVerif/Ops/*.lean` file contributes a list of named operations. -/
 open WS WS.Proto
 
 def allOps : List (String × P String) :=
-  WS.Ops.Stats.ops ++ WS.Ops.Peak.ops ++ WS.Ops.Track.ops ++ WS.Ops.Select.ops
+  WS.Ops.Stats.ops ++ WS.Ops.Peak.ops ++ WS.Ops.Track.ops ++ WS.Ops.Select.ops ++ WS.Ops.History.ops
 
 def dispatch (op : String) : P String :=
   match allOps.lookup op with
